@@ -338,6 +338,34 @@ func (p *pgen) goal(depth, from int, allowCut bool) *G {
 					}
 					return gc(",", outer, gc(",", p.goal(0, from, false), late))
 				}
+				if r.coin(0.25) {
+					// a catch/3 that is re-entered by backtracking after it has exited: its goal is nondeterministic,
+					// raises on a later solution, and the continuation rejects the earlier ones; the catch is active again
+					v := gv(r.intn(p.nvars))
+					k := 2 + r.intn(2)
+					els := []*G{gi(1), gi(2), gi(3)}[:k]
+					var raise *G
+					if r.coin(0.6) {
+						raise = gc("throw", p.ball())
+					} else {
+						raise = gc("is", gv(-1), gc("+", ga("foo"), gi(1)))
+					}
+					bad := gi(int64(2 + r.intn(k-1)))
+					inner := gc("catch", gc(",", gc("member", v, glist(els, nil)), gc(";", gc("->", gc("==", v, bad), raise), ga("true"))),
+						[]*G{gv(-1), p.catcher(), p.catcher()}[r.intn(3)], gc("=", v, ga("caught")))
+					reject := gc(`\==`, v, gi(1))
+					if r.coin(0.3) {
+						reject = gc(`\==`, v, gi(int64(1+r.intn(2))))
+					}
+					g := gc(",", inner, reject)
+					if r.coin(0.4) { // an outer catch/3 that must not see the ball when the inner one takes it
+						g = gc("catch", g, gv(-1), gc("=", v, ga("outer")))
+					}
+					if r.coin(0.3) && f.findall {
+						g = gc("findall", v, inner, gv(r.intn(p.nvars)))
+					}
+					return g
+				}
 				return gc("catch", p.conj(depth-1, from, f.cut), p.catcher(), p.conj(depth-1, from, false))
 			}
 		case 17:
